@@ -3,11 +3,23 @@
    models.py by the correspondence runs (and, for the per-variable rules, by bridge/VarsBridge.v). *)
 From Coq Require Import List ZArith Bool Arith.
 From PV Require Import Xnum Select PyLib Argsort Vars Vars_proofs Task_proofs.
-From PVGen Require Import GenHyper.
-From PVBridge Require Import VarsBridge.
+From PVGen Require Import GenHyper GenTask.
+From PVBridge Require Import VarsBridge TaskBridge.
 
-(* the accessors of Task that the hand model describes and T-core does not translate (get_variables, get_bounds, empty_solution, transform_solution, the dimension
-   computed by __init__) have exactly the modelled text: each a function of the CURRENT `self.variables`, recomputed at every call - no cached description *)
+(* the Task-level loops and comprehensions as REGENERATED from models.py by T-core (the dimension computed by __init__, get_variables, get_bounds with its two
+   accumulators, transform_solution with its running counter, slices and dict) ARE the model's functions the theorems below are about - parametric in the per-variable
+   methods (size, children, own bounds, decode) *)
+Theorem C14_dimension_regenerated : forall t, gen_task_dimension t = dimension t.
+Proof. exact dimension_bridge. Qed.
+Theorem C14_get_variables_regenerated : forall t, gen_task_get_variables t = flat_vars t.
+Proof. exact get_variables_bridge. Qed.
+Theorem C14_get_bounds_regenerated : forall t,
+  fst (gen_task_get_bounds t) = map lower_of (bounds t) /\ snd (gen_task_get_bounds t) = map upper_of (bounds t).
+Proof. exact sides_of_bounds. Qed.
+Theorem C14_transform_solution_regenerated : forall t x, gen_task_transform_solution t x = transform_solution t x.
+Proof. exact transform_solution_bridge. Qed.
+
+(* what T-core does not translate of Task (the statements of __init__ around the dimension, empty_solution with its random draws) has exactly the modelled text *)
 Theorem C14_task_accessors_regenerated : gen_task_methods_shape = true.
 Proof. reflexivity. Qed.
 
@@ -57,6 +69,8 @@ Theorem C14_transform_keys : forall t x r, NoDup (map fst t) -> transform_soluti
 Proof. exact transform_keys. Qed.
 
 Print Assumptions C14_dimension.
+Print Assumptions C14_get_bounds_regenerated.
+Print Assumptions C14_transform_solution_regenerated.
 Print Assumptions C14_one_variable_per_coordinate.
 Print Assumptions C14_bounds_length.
 Print Assumptions C14_bounds_own.
